@@ -383,6 +383,21 @@ func runC05(c *Ctx) error {
 		}
 	}
 
+	// ---- several rules on one field, with arguments protected by quotes (by-construction expectations)
+	for i := 0; i < n; i++ {
+		g := newWgen(r.Fork())
+		g.marker = 100000 + i*100
+		b := g.buildStruct(0, "")
+		call := &walkCall{Entry: "struct", Src: b.val.Addr().Interface()}
+		spec := "SNil"
+		if len(b.exps) > 0 {
+			spec = "SExpect true " + galExps(b.exps)
+		}
+		term, desc := call.caseTerm([]string{spec, "SNoPanic"})
+		w.Add("CW ("+term+")", desc, "multi:"+g.featureCell())
+		w.Count("multi-rule-fields")
+	}
+
 	// ---- GetTimeFmt itself: all 64 masks x separator lists of length 0..3
 	for mask := 0; mask < 64; mask++ {
 		for k := 0; k <= 3; k++ {
